@@ -207,10 +207,47 @@ def scenarios():
     ids = {id(r1['s1']), id(r1['s2']), id(r2['s1']), id(r2['s2'])}
     return (r1['s1'] is not r2['s1'] and r1['s2'] is not r2['s2'] and r1['s1'] is not r2['s2']
             ) or f'{len(ids)} distinct objects over two calls'
-  for name, fn in [('functools-reference', s_reference), ('partial-in-partial', s_partial_in_partial),
+  def s_positional_container_with_factory():
+    p = fdl.build(fdl.Partial(wide, [fdl.ArgFactory(H.g4), 1], 2, {'k1': fdl.ArgFactory(H.g4)}, (3,)))
+    r1, r2 = p().args, p().args
+    a1, a2 = r1['a'], r2['a']
+    ok = (isinstance(a1, list) and pool.inst_of(a1[0]) is not None and a1 is not a2
+          and a1[0] is not a2[0] and r1['rest'][0]['k1'] is not r2['rest'][0]['k1']
+          and r1['rest'][1] is r2['rest'][1] and r1['b'] == 2)
+    return ok or f'{r1}'
+  def s_call_fails_then_works():
+    state = {'n': 0}
+    def flaky(s1=0):
+      state['n'] += 1
+      if state['n'] == 1:
+        raise RuntimeError('first call fails')
+      return pool.Inst(4, {'s1': s1})
+    p = fdl.build(fdl.Partial(H.f1, s1=[fdl.ArgFactory(flaky)], s2={'k1': [fdl.ArgFactory(H.g4)]}))
+    try:
+      p()
+      return 'the failing factory did not fail'
+    except RuntimeError:
+      pass
+    r1, r2 = args_of(p()), args_of(p())
+    return (r1['s1'][0] is not r2['s1'][0] and r1['s2']['k1'][0] is not r2['s2']['k1'][0]
+            ) or 'calls after a failed call are not evaluated anew'
+  def s_reentrant_call():
+    box = {}
+    def reenter(s1=0):
+      if 'p' in box and not box.get('busy'):
+        box['busy'] = True
+        box['inner'] = box['p']()
+        box['busy'] = False
+      return pool.Inst(4, {'s1': s1})
+    box['p'] = fdl.build(fdl.Partial(H.f1, s1=[fdl.ArgFactory(reenter)]))
+    r = args_of(box['p']())
+    return (args_of(box['inner'])['s1'][0] is not r['s1'][0]) or 're-entrant call shared a factory result'
+  for name, fn in [('positional-container-with-factory', s_positional_container_with_factory),
+                   ('call-fails-then-works', s_call_fails_then_works), ('reentrant-call', s_reentrant_call),
+                   ('functools-reference', s_reference), ('partial-in-partial', s_partial_in_partial),
                    ('positional-args', s_positional), ('same-factory-twice', s_same_factory_twice_per_call)]:
     probe(name, fn)
-  return out, 4
+  return out, 7
 
 
 def main():
